@@ -51,6 +51,15 @@ def edge_codes(chk):
     for n in fn.body:
         if isinstance(n, ast.If) and "edge" in src(n.test):
             node = n
+    # table form: self._edgeType = {'fEq': 0, ...}[edge] (an unknown string raises KeyError: refused)
+    for a in ast.walk(fn):
+        if isinstance(a, ast.Assign) and src(a.targets[0]) == "self._edgeType" and isinstance(a.value, ast.Subscript) and src(a.value.slice) == "edge":
+            d = a.value.value
+            if isinstance(d, ast.Name):
+                defs = [x for x in ast.walk(fn) if isinstance(x, ast.Assign) and src(x.targets[0]) == d.id]
+                d = defs[0].value if len(defs) == 1 else None
+            if isinstance(d, ast.Dict) and all(isinstance(k, ast.Constant) and isinstance(v, ast.Constant) for k, v in zip(d.keys, d.values)):
+                return {k.value: v.value for k, v in zip(d.keys, d.values)}, True, a
     if node is None:
         raise AnalysisError("C11: boundary-mode dispatch not found in VParallelAdvection.__init__")
     cur = node
@@ -83,10 +92,16 @@ def run(chk):
     chk.in_file(U.ADVK)
     chk.functions.add(f"{U.ADVK}:{GEN}")
     table, has_raise, node = edge_codes(chk)
-    ok = set(table) == set(MODES) and len(set(table.values())) == 3 and has_raise
-    chk.ob("E3-edge-modes", node, "edge -> self._edgeType", ok,
-           f"modes {table}; any other string is refused" if ok else f"mode table {table}, refusal of other strings={has_raise}",
-           file=U.ADV, func="VParallelAdvection.__init__")
+    ok = bad = None
+    dup = {v for v in table.values() if list(table.values()).count(v) > 1}
+    if set(table) == set(MODES) and not dup and has_raise:
+        ok = True
+    elif dup:
+        bad = f"modes {sorted(k for k, v in table.items() if v in dup)} share the code {sorted(dup)[0]}: one of them runs the other's boundary rule"
+    elif set(MODES) - set(table) and set(table) <= set(MODES) and table:
+        bad = f"mode(s) {sorted(set(MODES) - set(table))} of the property are no longer offered (mode table {table})"
+    chk.pat("E3-edge-modes", node, "edge -> self._edgeType", ok, f"modes {table}; any other string is refused", bad,
+            file=U.ADV, func="VParallelAdvection.__init__")
     fnk = kmod.func(GEN)
     for name, what in MODES.items():
         if name not in table:
@@ -116,73 +131,76 @@ def run(chk):
         "self._edgeType": "bound", "self._spline.basis.cubic_uniform": "cubic_uniform_splines",
     }, const_recv="self._constants")
     b = agree.bind_call(c, formals) or {}
+    from ..core import same_expr
+    from ..npsym import NpSym
     feet = b.get("vPts")
+    feet_node = feet
+    okf, detail = None, "no argument bound to vPts"
     if isinstance(feet, ast.Name):
         # a local computed once in the method stands for its defining expression
-        fd = [n_ for n_ in ast.walk(step) if isinstance(n_, ast.Assign) and src(n_.targets[0]) == feet.id]
-        st_ = [n_ for n_ in ast.walk(step) if isinstance(n_, ast.Name) and n_.id == feet.id and isinstance(n_.ctx, ast.Store)]
-        if len(fd) == 1 and len(st_) == 1:
+        fd = [n_ for n_ in ast.walk(step) if isinstance(n_, (ast.Assign, ast.AugAssign)) and
+              src(n_.targets[0] if isinstance(n_, ast.Assign) else n_.target) == feet.id]
+        if len(fd) == 1 and isinstance(fd[0], ast.Assign):
             feet = fd[0].value
         else:
             # the feet are re-assigned before the kernel sees them: folding them into the domain with `%`/np.mod uses the half-open
             # interval [vMin, vMax), the kernel's periodic image (shift loops) the interval (vMin, vMax]
             wrap = [n_ for n_ in fd if any((isinstance(x_, ast.Call) and src(x_.func) in ("np.mod", "np.remainder", "np.fmod")) or
                                            (isinstance(x_, ast.BinOp) and isinstance(x_.op, ast.Mod)) for x_ in ast.walk(n_.value))]
+            feet = None
+            detail = f"`{feet_node.id}` is assigned {len(fd)} times before the kernel call: feet not extractable"
             if wrap:
-                chk.ob("F2-feet", wrap[0], f"vPts <- {feet.id} (re-assigned: {src(wrap[0])[:70]})", False,
-                       f"`{src(wrap[0])[:90]}` folds the feet into [vMin, vMax) before the kernel is called: a foot lying exactly on vMax "
-                       "(zero displacement, or a displacement of a whole number of cells reaching vMax) is moved to vMin and takes the "
-                       "spline's value there, whereas the kernel's own periodic image leaves it on vMax; the spline in v is clamped, "
-                       "so the two values differ", file=U.ADV, func="VParallelAdvection.step")
-                feet = None
-    okf = False
-    detail = "no argument bound to vPts"
-    if feet is None and isinstance(b.get("vPts"), ast.Name):
-        pass
-    elif feet is not None:
+                okf = False
+                feet_node = wrap[0]
+                detail = (f"`{src(wrap[0])[:90]}` folds the feet into [vMin, vMax) before the kernel is called: a foot lying exactly on vMax "
+                          "(zero displacement, or a displacement of a whole number of cells reaching vMax) is moved to vMin and takes the "
+                          "spline's value there, whereas the kernel's own periodic image leaves it on vMax; the spline in v is clamped, "
+                          "so the two values differ")
+    if feet is not None:
         P, cc, dt = sp.symbols("P c dt", real=True)
         try:
-            val = eval(compile(ast.Expression(body=_rename(feet)), "<feet>", "eval"), {"__builtins__": {}},
-                       {"self__points": P, "c": cc, "dt": dt})
-            okf = alg_equal(val, P - cc * dt)
-            detail = f"feet expression `{src(feet)}` = {val}"
-        except Exception as e:
-            detail = f"feet expression `{src(feet)}` not a polynomial in (nodes, c, dt): {e}"
-    if not (feet is None and isinstance(b.get("vPts"), ast.Name)):
-        chk.ob("F2-feet", feet or c, f"vPts <- {src(feet) if feet is not None else '?'}", okf if feet is not None and "not a polynomial" not in detail else (None if feet is not None else False),
-               "feet are v_node - c*dt" if okf else detail, file=U.ADV, func="VParallelAdvection.step")
+            val = NpSym(env={"c": cc, "dt": dt}, hooks={"self._points": P}).ev(feet)
+            okf = bool(alg_equal(val, P - cc * dt))
+            detail = "feet are v_node - c*dt" if okf else \
+                f"the feet handed to the kernel are `{src(feet)}` = {val}, expected v_node - c*dt = {P - cc * dt}: the interpolant is evaluated at other points"
+        except Undecided as e:
+            detail = f"feet expression `{src(feet)}` outside the extractable fragment: {e}"
+    chk.ob("F2-feet", feet_node if feet_node is not None else c, f"vPts <- {src(feet_node)[:90] if feet_node is not None else '?'}", okf, detail,
+           file=U.ADV, func="VParallelAdvection.step")
     pts = [n for n in ast.walk(chk.func(U.ADV, "VParallelAdvection.__init__")) if isinstance(n, ast.Assign)
            and src(n.targets[0]) == "self._points"]
-    okp = len(pts) == 1 and src(pts[0].value) == "eta_vals[3]"
-    chk.ob("E2-point-order", pts[0] if pts else step, "self._points = eta_vals[3]", okp,
-           "nodes are the v grid (dimension 3)", file=U.ADV, func="VParallelAdvection.__init__")
-    ci = [n_ for n_ in ast.walk(step) if isinstance(n_, ast.Call) and isinstance(n_.func, ast.Attribute) and n_.func.attr == "compute_interpolant"
-          and src(n_.func.value) == "self._interpolator"]
-    oki = len(ci) == 1 and (ci[0].lineno, ci[0].col_offset) < (c.lineno, c.col_offset) and \
-        [src(a_) for a_ in ci[0].args] + [src(k_.value) for k_ in ci[0].keywords] == ["f", "self._spline"]
-    chk.ob("E2-interpolate-before-evaluate", step, "compute_interpolant(f, self._spline)", oki,
-           "the spline is recomputed from the current nodal values before it is evaluated at the feet" if oki else
-           "the spline of f is not recomputed before evaluation", file=U.ADV, func="VParallelAdvection.step")
+    okp = badp = None
+    if len(pts) == 1:
+        v_ = pts[0].value
+        if same_expr(v_, "eta_vals[3]"):
+            okp = True
+        elif isinstance(v_, ast.Subscript) and same_expr(v_.value, "eta_vals") and isinstance(v_.slice, ast.Constant):
+            badp = f"the nodes are `{src(v_)}`, not the v grid eta_vals[3]: feet, domain ends and spline refer to another dimension"
+    chk.pat("E2-point-order", pts[0] if pts else step, "self._points = eta_vals[3]", okp, "nodes are the v grid (dimension 3)", badp,
+            file=U.ADV, func="VParallelAdvection.__init__")
+    ci = [n_ for n_ in ast.walk(step) if isinstance(n_, ast.Call) and isinstance(n_.func, ast.Attribute) and n_.func.attr == "compute_interpolant"]
+    oki = badi = None
+    pos = lambda n_: (n_.lineno, n_.col_offset)
+    if not ci:
+        badi = ("the spline of f is not recomputed in step: the kernel evaluates the spline left over from the previous call (another "
+                "line's values) at the feet")
+    elif len(ci) == 1 and src(ci[0].func.value) == "self._interpolator":
+        bi = agree.bind_call(ci[0], ["ug", "spl"]) or {}
+        if set(bi) == {"ug", "spl"} and same_expr(bi["ug"], "f") and same_expr(bi["spl"], "self._spline"):
+            if pos(ci[0]) < pos(c):
+                oki = True
+            else:
+                badi = ("the spline is recomputed only after the kernel has evaluated it: the kernel sees the previous call's spline and the "
+                        "new one interpolates already advected values")
+    chk.pat("E2-interpolate-before-evaluate", ci[0] if ci else step, "compute_interpolant(f, self._spline)", oki,
+            "the spline is recomputed from the current nodal values before it is evaluated at the feet", badi,
+            file=U.ADV, func="VParallelAdvection.step")
     # grid-level wiring (index spaces)
     from .C05 import parallel_gradient, v_parallel
     pg_attrs, pg_summ = parallel_gradient(chk)
     v_parallel(chk, pg_summ)
     from .. import lints as _l
     _l.check_cache_keys(chk, U.ADV, "VParallelAdvection")
-    chk.floor("F2-", 4)
-    chk.floor("E2-argument-role", 12)
+    chk.floor("F2-", 3)
+    chk.floor("E2-argument-role", 8)
     chk.floor("C", 4)
-
-
-class _Ren(ast.NodeTransformer):
-    def visit_Attribute(self, node):
-        s = src(node)
-        if s == "self._points":
-            return ast.copy_location(ast.Name(id="self__points", ctx=ast.Load()), node)
-        return self.generic_visit(node)
-
-
-def _rename(e):
-    e2 = ast.parse(src(e), mode="eval").body
-    e2 = _Ren().visit(e2)
-    return ast.fix_missing_locations(e2)
